@@ -7,7 +7,7 @@ LEAN_MODULE = "Ucfg.Props.C06"
 LEVEL_TEXT = 'Round-trip theorems per primitive kind (value -> setting -> same value) and the lift to whole structs of primitive fields (flat_struct_roundtrip: NewFrom(struct) followed by Unpack into the zero value returns exactly the struct, for any number of exported untagged fields with distinct simple names, any options without per-field policies: normalisation keeps a sorted dictionary, the merge into the empty config keeps every entry, the field loop finds and converts each); the lift through tags, pointers, containers and nested structs is PARTIAL and decided by the roundtrip correspondence over generated struct types; known finding D24.'
 CORRESPONDENCE = "Normalize.normStructInto + Unpack.unpack ~ ucfg.NewFrom(v) then (*Config).Unpack(&zero)"
 RULE = ("struct types from the type generator restricted to the supported kinds (no interface{}, no arrays as map values) with tags "
-        "(rename, inline struct, ignore, embedded structs, dotted tags reaching into a sibling struct's subtree under PathSep, dotted tags addressing the elements of one list in any order of declaration) x values of those types incl. zero values, extreme numbers (MinInt64, MaxUint64, +-Inf, NaN, "
+        "(rename, inline struct - also with a name in the same tag -, ignore, embedded structs, dotted tags reaching into a sibling struct's subtree under PathSep, dotted tags addressing the elements of one list in any order of declaration) x values of those types incl. zero values, extreme numbers (MinInt64, MaxUint64, +-Inf, NaN, "
         "sized-type boundaries), empty and nil collections, nil and non-nil pointers, durations, regular expressions and strings over "
         "'$', '.', ',', braces, quotes and spaces. Oracle: the unpacked value equals the original (nil = empty collection). "
         "Non-trivial: the value has a non-zero field below the top level. Distinct by (type signature, value classes).")
@@ -36,7 +36,9 @@ def rt_type(rng, depth, top=False):
             tag = ""
             r = rng.below(10)
             if r == 0: tag = name.lower() + "_r"
-            elif r == 1 and fty["t"] == "struct": tag = ",inline"
+            elif r == 1 and fty["t"] == "struct":
+                # inline with and without a name in front (the name is ignored in both directions)
+                tag = rng.pick([",inline", ",inline", name.lower() + "_n,inline"])
             elif r == 2: tag = ",ignore"
             f = {"n": name, "tag": tag, "v": "", "ty": fty}
             if fty["t"] == "struct" and "ignore" not in tag and rng.chance(0.3):
